@@ -368,8 +368,11 @@ def _removed_lists(stmts, acquirers, releasers):
 def acquire_sites(tree):
     """[(function, list, variable, guard)] for every place where a method other than the acquire methods
     themselves claims an identifier: a call of an acquire method, or an inline acquire section.
-    guard = 'finally-of-enclosing-try'  the statement lies in the body of a `try` whose `finally` releases
-                                         the same identifier of the same list
+    guard = 'finally-of-enclosing-try'  the statement stands at the head of the body of a `try` whose `finally`
+                                         releases the same identifier of the same list (only claims, logging and
+                                         message strings and path computations before it: nothing that can fail between the entry of the
+                                         `try` and the claim, so the `finally` never releases what was not claimed)
+            'finally-of-enclosing-try-but-not-at-its-head'  guarded, but something that can fail comes first
             'finally-of-next-try'       the very next statement is such a `try`
             'none'                      neither: an exception (or an early exit) in between leaks the claim"""
     cls = _class_def(tree)
@@ -401,14 +404,32 @@ def acquire_sites(tree):
             return _appended_list(stmt.body)
         return None
 
-    def walk(fname, stmts, enclosing):
-        """enclosing: set of (list, var) released by the finally blocks of the enclosing try statements"""
+    def quiet(stmt):
+        """a statement that cannot fail between the entry of a `try` and a claim: logging, a message string"""
+        if isinstance(stmt, ast.Expr) and isinstance(stmt.value, ast.Call) and _is_logging_call(stmt.value):
+            return True
+        if isinstance(stmt, ast.Expr) and isinstance(stmt.value, ast.Constant):
+            return True
+        if isinstance(stmt, ast.Assign) and _is_message(stmt.value):
+            return True
+        # a path computed from an identifier: string work, no file-system call
+        if isinstance(stmt, ast.Assign) and isinstance(stmt.value, ast.Call):
+            m = _self_attr(stmt.value.func)
+            if m is not None and (m == "_get_store_path" or (m.startswith("_get_hashstore_") and m.endswith("_path"))):
+                return True
+        return False
+
+    def walk(fname, stmts, enclosing, head=frozenset()):
+        """enclosing: set of (list, var) released by the finally blocks of the enclosing try statements;
+        head: those of them whose `try` body is `stmts` itself (so that position in the body can be judged)"""
         for idx, st in enumerate(stmts):
             c = claim_of(st)
             if c is not None:
                 nxt = stmts[idx + 1] if idx + 1 < len(stmts) else None
                 if c in enclosing:
-                    g = "finally-of-enclosing-try"
+                    # at the head of the guarding try: only claims and statements that cannot fail come before it
+                    at_head = c in head and all(claim_of(x) is not None or quiet(x) for x in stmts[:idx])
+                    g = "finally-of-enclosing-try" if at_head else "finally-of-enclosing-try-but-not-at-its-head"
                 elif isinstance(nxt, ast.Try) and c in _removed_lists(nxt.finalbody, acquirers, releasers):
                     g = "finally-of-next-try"
                 else:
@@ -417,7 +438,7 @@ def acquire_sites(tree):
                 continue
             if isinstance(st, ast.Try):
                 rel = _removed_lists(st.finalbody, acquirers, releasers)
-                walk(fname, st.body, enclosing | rel)
+                walk(fname, st.body, enclosing | rel, frozenset(rel))
                 for h in st.handlers:
                     walk(fname, h.body, enclosing)
                 walk(fname, st.orelse, enclosing)
